@@ -137,6 +137,7 @@ func richSubtitles(r *fw.Rand) *astisub.Subtitles {
 	s := astisub.NewSubtitles()
 	ns, nr := r.Intn(7), r.Intn(7)
 	caseIDs := r.P(1, 4)
+	namedIDs := !caseIDs && r.P(1, 3)
 	var styles []*astisub.Style
 	for k := 0; k < ns; k++ {
 		sa := &astisub.StyleAttributes{}
@@ -149,9 +150,17 @@ func richSubtitles(r *fw.Rand) *astisub.Subtitles {
 		if r.Bool() {
 			sa.WebVTTStyles = []string{fmt.Sprintf("::cue(.s%d) {", k), "color: red;", "}"}
 		}
+		if r.P(1, 3) {
+			// region attributes on a style: what a region that relies on it falls back to
+			sa.WebVTTLines, sa.WebVTTRegionAnchor, sa.WebVTTViewportAnchor, sa.WebVTTWidth, sa.WebVTTScroll = r.Range(1, 9), "0%,100%", "10%,90%", "60%", "up"
+		}
 		st := &astisub.Style{ID: fmt.Sprintf("style%d", k), InlineStyle: sa}
 		if k%2 == 1 && caseIDs {
 			st.ID = fmt.Sprintf("Style%d", k-1) // differs from its neighbour only by letter case
+		}
+		if namedIDs {
+			// the names an SSA script would use, "Default" among names that sort before and after it
+			st.ID = []string{"Default", "Alt", "Sign", "1st", "default", "Caption", "*Default"}[k]
 		}
 		if k > 0 && r.Bool() {
 			st.Style = styles[r.Intn(k)]
